@@ -514,10 +514,14 @@ class C14(Prop):
         elif kind == "lh":
             n = rng.choice([1, 2, 4])
             t = rng.choice(["rm", "rm1", "ft"])
-            cls = []
-            for _ in range(n):
+            cls, seen_keys = [], set()
+            while len(cls) < n:
                 a, b = sorted([dy(rng, 0, 16, 4), dy(rng, 0, 16, 4)]) if t != "ft" else sorted([dy(rng), dy(rng)])
                 c, d = sorted([dy(rng), dy(rng)])
+                key = (a, b) if t == "rm1" else (a, b, c, d)
+                if key in seen_keys:
+                    continue            # a histogram does not hold one class twice (pandas cannot even join a non-unique index)
+                seen_keys.add(key)
                 cls.append([a, b, c, d])
             case = {"kind": "lh", "t": t, "classes": cls, "vals": [float(rng.randint(0, 50)) for _ in range(n)],
                     "f": rng.choice([dy(rng, 0, 4, 4), 0.0, 1.0, 2.0]), "d": dy(rng, -4, 4, 4),
